@@ -124,7 +124,7 @@ inductive DiagCls
   | missingTitle | missingParen | funcSyntax | deprecatedDrop | deprecatedKeep
   | unterminatedString | unterminatedComment | badOctal | badEscape
   | includeDepth | includeNotFound | includeOpen | includeArgs | noSubSection
-  | callback | other
+  | callback | noParseCb | other
 deriving DecidableEq, Repr, Inhabited
 
 structure Diag where
